@@ -148,7 +148,9 @@ def call_package(I, e, s, g, args, kwargs):
             for (var, key), v in s.sib.items():
                 if var == kw.value.id:
                     sib[(kw.arg, key)] = v
-    ret = I.call_func(g, args, kwargs, node=e, present=frozenset(facts), sib=sib)
+    # a function defined inside the caller reads the caller's variables as they are now
+    closure = dict(s.env) if (g.outer is not None and g.outer is I.cur_func) else None
+    ret = I.call_func(g, args, kwargs, node=e, present=frozenset(facts), sib=sib, closure_env=closure)
     # rename keys_of facts from callee parameter names to caller argument names
     def rename(av, depth=0):
         if av is None or depth > 2:
@@ -188,8 +190,15 @@ def construct(I, e, s, t, args, kwargs, cls):
 
 def call_ext(I, e, s, name, args, kwargs):
     short = name
+    if name.endswith("parse.unquote") or name == "unquote":
+        # the default error handler ("replace") never fails; `errors="strict"` makes an escape that is not UTF-8 (%ff) raise
+        em = kwargs.get("errors") if kwargs else None
+        if em is None and len(args) > 2:
+            em = args[2]
+        if em is not None and not (em.const is not None and em.const[0] == "c" and em.const[1] in ("replace", "ignore")):
+            I.raise_("UnicodeDecodeError", e, "unquote(..., errors=%s)" % (em.const[1] if em.const else "?"))
     if name in CALLEE_RAISES_ON_STR:
-        for a in args:
+        for a in args[:1] if (name.endswith("unquote")) else args:
             I.need(a.kinds <= frozenset(["str", "opaque"]), "TypeError", e, "%s on a non-string" % name, a.describe())
         for x in CALLEE_RAISES_ON_STR[name]:
             I.raise_(x, e, "%s(%s)" % (name, ", ".join(norm(a)[:25] for a in e.args)))
@@ -534,6 +543,11 @@ def b_iter_like(kind):
         if kind in ("set", "frozenset"):
             I.need(not (el.kinds & frozenset(["list", "dict", "set"])), "TypeError", e, "set() of unhashable elements: %s" % norm(e)[:50], el.describe())
             return AV(["set"], elem=el)
+        if kind == "sorted" and "key" in kw:
+            kr = _key_result(I, e, s, kw["key"], el)
+            if kr is not None:
+                I.need(_orderable(kr) is not False, "TypeError", e, "sorted() over keys that may not be mutually orderable", kr.describe())
+            return AV(["list"], elem=el, nonempty=v.nonempty)
         if kind == "sorted":
             ks = el.kinds
             ok = ks <= frozenset(["int", "float", "bool"]) or ks <= frozenset(["str"]) or ks <= frozenset(["tuple"]) or not ks
@@ -626,6 +640,33 @@ def b_getattr(I, e, s, args, kw):
     return AV(["opaque"])
 
 
+def _orderable(av, depth=0):
+    """True / False / None (unknown): can any two values described by av be compared with < ?"""
+    if av is None or av.empty or depth > 3:
+        return None
+    ks = av.kinds
+    if ks <= frozenset(["opaque", "func", "err", "gen", "match", "module"]) or (ks & frozenset(["opaque"])):
+        return None
+    if ks <= frozenset(["int", "float", "bool", "obj:Fraction"]) or ks <= frozenset(["str"]):
+        return True
+    if ks <= frozenset(["tuple"]):
+        if av.items is None:
+            return None
+        res = [_orderable(x, depth + 1) for x in av.items]
+        if any(x is False for x in res):
+            return False
+        return None if any(x is None for x in res) else True
+    return False
+
+
+def _key_result(I, e, s, fv, el):
+    """what key(elem) is, for max/min/sorted(key=...): the key function is analysed on an element"""
+    try:
+        return call_value(I, e, s, fv, [el], {})
+    except Exception:
+        return None
+
+
 def b_minmax(I, e, s, args, kw):
     v = args[0] if args else BOTTOM
     iter_check(I, v, e, "max/min")
@@ -634,6 +675,11 @@ def b_minmax(I, e, s, args, kw):
     if "key" not in kw:
         el = v.elem_av() if v.kinds & ITERABLE else BOTTOM
         I.need(len(el.kinds) <= 1 or el.kinds <= frozenset(["int", "float", "bool"]), "TypeError", e, "max/min of mixed kinds", el.describe())
+    else:
+        # the keys are what is compared: a component that may be None for one element and a string for another cannot be ordered
+        kr = _key_result(I, e, s, kw["key"], v.elem_av() if v.kinds & ITERABLE else AV(["opaque"]))
+        if kr is not None:
+            I.need(_orderable(kr) is not False, "TypeError", e, "max/min over keys that may not be mutually orderable", kr.describe())
     return v.elem_av() if v.kinds & ITERABLE else AV(["opaque"])
 
 
